@@ -151,8 +151,7 @@ Read(r, b) ==
 (* go-git pushes refs/bugs/*:refs/bugs/* without force; one non-fast-forward ref refuses the whole push. *)
 PushOK(r) == \A b \in Bugs : ref[r][b] # 0 /\ hub[b] # 0 => hub[b] \in Anc(ref[r][b])
 
-Push(r) ==
-  /\ \E b \in Bugs : ref[r][b] # 0
+Push(r) ==          \* with nothing to push it succeeds and changes nothing
   /\ IF PushOK(r)
      THEN /\ hub' = [b \in Bugs |-> IF ref[r][b] # 0 THEN ref[r][b] ELSE hub[b]]
           /\ trk' = [trk EXCEPT ![r] = [b \in Bugs |-> IF ref[r][b] # 0 THEN ref[r][b] ELSE trk[r][b]]]
